@@ -89,6 +89,9 @@ struct Exporter {
     source: u32,
     skew_ms: i64,
     down_until: u64,
+    /// recent data-only packets with the definitions they were built from (for the heal
+    /// phase: the SAME bytes are delivered again once the templates are there)
+    sent_data: Vec<(Vec<u8>, Vec<(u16, TDef)>)>,
 }
 
 #[derive(Debug)]
@@ -549,8 +552,11 @@ impl<'a> World<'a> {
                     let s = self.template_sets(kind, &announce, e, false);
                     sets.extend(s);
                 }
+                let data_only = announce.is_empty();
+                let mut used: Vec<(u16, TDef)> = Vec::new();
                 for i in data_plan {
                     let t = self.ex[e].tpls[i].clone();
+                    used.push((t.id, t.def.clone()));
                     if !t.announced {
                         self.stats.hit("data_for_unannounced_template");
                     }
@@ -575,7 +581,15 @@ impl<'a> World<'a> {
                     total += s.len();
                     keep.push(s);
                 }
-                self.assemble(e, keep, nrecords)
+                let pkt = self.assemble(e, keep, nrecords);
+                if data_only && pkt.len() < 4000 {
+                    let log = &mut self.ex[e].sent_data;
+                    if log.len() >= 6 {
+                        log.remove(0);
+                    }
+                    log.push((pkt.clone(), used));
+                }
+                pkt
             }
         }
     }
@@ -736,7 +750,7 @@ impl<'a> World<'a> {
             let tpls = self.new_templates(*k);
             let source = self.rng.next_u64() as u32;
             let skew = if self.rng.permille(cfg.clock_jump) { self.rng.range(0, 1 << 33) as i64 - (1 << 32) } else { 0 };
-            self.ex.push(Exporter { kind: *k, parser: cfg.parser_of[i], tpls, seq: 0, source, skew_ms: skew, down_until: 0 });
+            self.ex.push(Exporter { kind: *k, parser: cfg.parser_of[i], tpls, seq: 0, source, skew_ms: skew, down_until: 0, sent_data: Vec::new() });
             let at = self.rng.range(1, 50) * MS;
             self.push(at, Act::Emit(i));
         }
@@ -794,11 +808,30 @@ impl<'a> World<'a> {
                 for b in self.refresh_packets(e, true) {
                     self.send(e, b, false);
                 }
+                // the same data bytes that may have met an empty cache earlier, now that the
+                // templates are there (only packets whose definitions are still current)
+                let log = std::mem::take(&mut self.ex[e].sent_data);
+                for (pkt, used) in log {
+                    let current = used.iter().all(|(id, def)| self.ex[e].tpls.iter().any(|t| t.id == *id && t.def == *def));
+                    if current {
+                        self.stats.hit("same_data_bytes_redelivered");
+                        let mut marked = vec![0xfe];
+                        marked.extend(pkt);
+                        self.send(e, marked, false);
+                    }
+                }
             }
             while let Some(item) = self.q.pop() {
                 self.now = item.at;
                 if let Act::Arrive { p, buf, parts, cut, .. } = item.act {
-                    events.push(Ev::Deliver { t: self.now, p, buf, parts, cut, faults: vec!["heal".into()] });
+                    // 0xfe prefix = internal marker of a re-delivery (stripped here)
+                    if buf.first() == Some(&0xfe) {
+                        let b = buf[1..].to_vec();
+                        let l = b.len();
+                        events.push(Ev::Deliver { t: self.now, p, buf: b, parts: vec![l], cut, faults: vec!["heal".into(), "replay".into()] });
+                    } else {
+                        events.push(Ev::Deliver { t: self.now, p, buf, parts, cut, faults: vec!["heal".into()] });
+                    }
                 }
             }
             self.stats.hit("heal_phase");
